@@ -1,9 +1,32 @@
 #!/bin/bash
 # Runs the repository's pinned test suite exactly as BASELINE.json does, with the
-# verif build tag OFF (no -tags), so that every hook compiles to nothing.
+# verif build tag OFF (no -tags), so that every hook compiles to nothing. The go test
+# -json stream goes to stdout; the exit status is 0 iff every test listed in
+# BASELINE.json "stable_pass" passed (4 converter tests need the network and are not in
+# that list; they fail offline with or without the hooks).
 . "$(dirname "$0")/env.sh"
-rc=0
+OUT="$(mktemp /var/tmp/verif-baseline-XXXXXX.json)"
+trap 'rm -f "$OUT"' EXIT
 for m in . ./cmd ./estargz ./ipfs; do
-  (cd /repo/$m && "$VERIF_GO" test -mod=mod -json -vet=off -count=1 -timeout 25m ./...) || rc=1
-done
-exit $rc
+  (cd /repo/$m && "$VERIF_GO" test -mod=mod -json -vet=off -count=1 -timeout 25m ./...)
+done | tee "$OUT"
+python3 - "$OUT" >&2 <<'PY'
+import json,sys
+res={}
+for l in open(sys.argv[1]):
+    try: e=json.loads(l)
+    except Exception: continue
+    if e.get('Test') and e.get('Action') in ('pass','fail','skip'):
+        res[e['Package']+'::'+e['Test']]=e['Action']
+try:
+    want=json.load(open('/root/.vp/BASELINE.json'))['stable_pass']
+except Exception:
+    want=None
+if want is None:
+    bad=[k for k,v in res.items() if v=='fail']
+    print('baseline_off: no BASELINE.json; failed tests:',len(bad)); sys.exit(1 if bad else 0)
+bad=[t for t in want if res.get(t)!='pass']
+print('baseline_off: %d tests seen, %d/%d stable_pass tests passed'%(len(res),len(want)-len(bad),len(want)))
+for t in bad[:30]: print('  NOT PASSED:',t,res.get(t))
+sys.exit(1 if bad else 0)
+PY
